@@ -18,7 +18,7 @@ CONSTANTS
   AllowKF = {}
   KFInitOpts = TRUE
   KFV1Hist = TRUE
-  MaxOps = 8
+  MaxOps = 7
   Balanced = FALSE
   EmitMode = "none"
   BigSeries = {"s2"}
